@@ -281,6 +281,11 @@ pub fn tstorage(tag: u8) -> TStorage {
 }
 
 pub fn tblock(tag: u8) -> BlockInfo {
+    // the second supplied block has the field values a "not set" test would stumble over: height 0,
+    // time 0, empty chain id (it is a supplied block like any other)
+    if tag == 2 {
+        return BlockInfo { height: 0, time: Timestamp::from_nanos(0), chain_id: String::new() };
+    }
     BlockInfo { height: 100 + tag as u64, time: Timestamp::from_seconds(1_000_000 + tag as u64), chain_id: format!("chain-{}", tag) }
 }
 
